@@ -239,6 +239,16 @@ class Ctx:
             log(f"harness {mode} n={n} rc={rc} {dt:.1f}s")
         if rc != 0:
             self.broken.append({"kind": "tie", "name": f"harness run ({mode})", "detail": out[-3000:]})
+            # the run died or hung: what its monitors had already written about THIS property is still a concrete failing input
+            mp = os.path.join(outdir, mode + ".mon")
+            if os.path.exists(mp):
+                for line in open(mp):
+                    try:
+                        m = json.loads(line)
+                    except ValueError:
+                        continue
+                    if str(m.get("signature", "")).startswith(self.prop[:3] + ":"):
+                        self.add_violation(m.get("what", ""), m["signature"], m.get("replay"))
             return None
         return outdir
 
